@@ -1,6 +1,158 @@
-From Coq Require Import List ZArith QArith Bool Reals.
+(* C35 Generated shift rules are exact for their frequency spectra.
+   Statements only; every proof is `exact <lemma>` from Num/ShiftRulesProofs.v.
+   A rule is a list of (coefficient, shift); rapply rl f x = sum_k c_k f(x + s_k);
+   mom_cos rl w = sum_k c_k cos(w s_k), mom_sin rl w = sum_k c_k sin(w s_k), mom0 rl = sum_k c_k.
+   NOT proved here (validated per instance by the harness): that the equidistant closed-form coefficients
+   of _get_shift_rule satisfy the moment conditions for general R, and that the linear solve succeeds. *)
+From Coq Require Import List ZArith QArith Bool Reals Morphisms.
 From PLV Require Import Num.ShiftRulesModel Num.ShiftRulesProofs.
 Import ListNotations.
-Theorem stub : equidistant_test (sortQ [1#1; 3#1]) = true /\ is_multiples (sortQ [1#1; 3#1]) = false.
-Proof. exact branch_refuted_stub. Qed.
-Print Assumptions stub.
+
+(* ------------------------------------------------------------------ (a) exactness <-> moments (over R) *)
+Open Scope R_scope.
+
+(* the rule reproduces f' for f = cos(w.) and f = sin(w.) at ALL x  iff  the two moment conditions hold *)
+Theorem rule_exact_on_trig_monomials_iff_moments : forall (rl : rrule) (w : R),
+  ((forall x, rapply rl (fun t => cos (w * t)) x = - w * sin (w * x)) /\
+   (forall x, rapply rl (fun t => sin (w * t)) x = w * cos (w * x)))
+  <-> (mom_cos rl w = 0 /\ mom_sin rl w = w).
+Proof. exact exact_iff_moments1. Qed.
+Print Assumptions rule_exact_on_trig_monomials_iff_moments.
+
+(* ... and the right-hand sides above are the derivatives *)
+Theorem trig_monomial_derivatives : forall w x,
+  derivable_pt_lim (fun t => cos (w * t)) x (- w * sin (w * x)) /\
+  derivable_pt_lim (fun t => sin (w * t)) x (w * cos (w * x)).
+Proof. intros w x; split; [exact (dlim_cosw w x) | exact (dlim_sinw w x)]. Qed.
+Print Assumptions trig_monomial_derivatives.
+
+(* <= for every finite linear combination a0 + sum_j a_j cos(w_j x) + b_j sin(w_j x): if every w_j satisfies
+   the moment conditions and a0 * (sum of coefficients) = 0, the value of the rule IS the derivative *)
+Theorem rule_exact_on_trig_polynomials : forall (rl : rrule) (a0 : R) (ts : list tterm),
+  a0 * mom0 rl = 0 ->
+  Forall (fun t => mom_cos rl (tw t) = 0 /\ mom_sin rl (tw t) = tw t) ts ->
+  forall x, rapply rl (tpoly a0 ts) x = tderiv ts x /\
+            derivable_pt_lim (tpoly a0 ts) x (rapply rl (tpoly a0 ts) x).
+Proof. exact rule_exact_trig_poly1. Qed.
+Print Assumptions rule_exact_on_trig_polynomials.
+
+(* the condition on the constant term is exactly what is needed: on the constant a0 the rule returns a0 * sum c *)
+Theorem constant_term_condition : forall (rl : rrule) (a0 x : R), rapply rl (tpoly a0 []) x = a0 * mom0 rl.
+Proof. exact const_term_needs_mom0. Qed.
+Print Assumptions constant_term_condition.
+
+(* PennyLane's first-order rules are antisymmetric (concatenate((c,-c)), concatenate((s,-s))): the constant
+   and the cosine moment vanish automatically and ONE condition per frequency remains *)
+Theorem antisymmetric_rule_moments : forall (h : rrule) (w : R),
+  mom0 (antisym h) = 0 /\ mom_cos (antisym h) w = 0 /\ mom_sin (antisym h) w = 2 * mom_sin h w.
+Proof. exact antisym_moments. Qed.
+Print Assumptions antisymmetric_rule_moments.
+
+Theorem antisymmetric_rule_exact : forall (h : rrule) (a0 : R) (ts : list tterm),
+  Forall (fun t => 2 * mom_sin h (tw t) = tw t) ts ->
+  forall x, derivable_pt_lim (tpoly a0 ts) x (rapply (antisym h) (tpoly a0 ts) x).
+Proof. exact antisym_rule_exact. Qed.
+Print Assumptions antisymmetric_rule_exact.
+
+(* (b) the two-term rule; w = 1 is c = +-1/2 at s = +-pi/2 *)
+Theorem two_term_rule_exact : forall w, w <> 0 ->
+  two_term w = [(w / 2, PI / (2 * w)); (- (w / 2), - (PI / (2 * w)))] /\
+  mom_cos (two_term w) w = 0 /\ mom_sin (two_term w) w = w.
+Proof. intros w Hw; split; [reflexivity | exact (two_term_moments w Hw)]. Qed.
+Print Assumptions two_term_rule_exact.
+
+(* second derivative: moments (-w^2, 0) *)
+Theorem rule_exact_order2_iff_moments : forall (rl : rrule) (w : R),
+  ((forall x, rapply rl (fun t => cos (w * t)) x = - (w * w) * cos (w * x)) /\
+   (forall x, rapply rl (fun t => sin (w * t)) x = - (w * w) * sin (w * x)))
+  <-> (mom_cos rl w = - (w * w) /\ mom_sin rl w = 0).
+Proof. exact exact_iff_moments2. Qed.
+Print Assumptions rule_exact_order2_iff_moments.
+
+Theorem rule_exact_order2_on_trig_polynomials : forall (rl : rrule) (a0 : R) (ts : list tterm),
+  a0 * mom0 rl = 0 ->
+  Forall (fun t => mom_cos rl (tw t) = - (tw t * tw t) /\ mom_sin rl (tw t) = 0) ts ->
+  forall x, rapply rl (tpoly a0 ts) x = tderiv2 ts x /\
+            derivable_pt_lim (tpoly a0 ts) x (tderiv ts x) /\
+            derivable_pt_lim (tderiv ts) x (rapply rl (tpoly a0 ts) x).
+Proof. exact rule_exact_trig_poly2. Qed.
+Print Assumptions rule_exact_order2_on_trig_polynomials.
+
+(* _iterate_shift_rule (order 2, before the period wrap): products of coefficients, sums of shifts *)
+Theorem iterated_rule_exact : forall (r1 r2 : rrule) (w : R),
+  (mom_cos r1 w = 0 /\ mom_sin r1 w = w) -> (mom_cos r2 w = 0 /\ mom_sin r2 w = w) ->
+  mom_cos (iterate2 r1 r2) w = - (w * w) /\ mom_sin (iterate2 r1 r2) w = 0.
+Proof. exact iterate2_exact. Qed.
+Print Assumptions iterated_rule_exact.
+
+Theorem iterated_rule_constant : forall (r1 r2 : rrule), mom0 r1 = 0 -> mom0 (iterate2 r1 r2) = 0.
+Proof. exact iterate2_mom0. Qed.
+Print Assumptions iterated_rule_constant.
+
+(* the period wrap np.mod(s + T/2, T) - T/2 moves a shift by an integer multiple of T: no moment changes
+   provided T is a true period of the frequency (w * T in 2 pi Z) *)
+Theorem period_wrap_sound : forall w T s (m k : Z), w * T = 2 * PI * IZR m ->
+  cos (w * (s + IZR k * T)) = cos (w * s) /\ sin (w * (s + IZR k * T)) = sin (w * s).
+Proof. exact wrap_shift_sound. Qed.
+Print Assumptions period_wrap_sound.
+
+(* ------------------------------------------------------------------ (c) the branch test (over Q) *)
+Open Scope Q_scope.
+
+(* REFUTED as a criterion for the closed form: frequencies (1,3) pass the equidistant test of _get_shift_rule
+   but are not of the form {w,2w,..,Rw}; with the pinned test the call takes the closed-form branch
+   (with the repaired test, REPAIRED_BRANCH_TEST = true, it goes to the linear solve) *)
+Theorem branch_test_refuted : exists fs : list Q,
+  equidistant_test (sortQ fs) = true /\ is_multiples (sortQ fs) = false /\
+  generate_branch fs None = (if REPAIRED_BRANCH_TEST then BSolve else BEqui).
+Proof. exists [1 # 1; 3 # 1]. exact branch_refuted_13. Qed.
+Print Assumptions branch_test_refuted.
+
+(* the repaired criterion (exact form): equal spacing AND smallest frequency = spacing implies {w,2w,..,Rw} *)
+Theorem repaired_branch_test_sound : forall sorted : list Q,
+  equally_spaced_exact sorted = true -> min_is_spacing_exact sorted = true -> is_multiples sorted = true.
+Proof. exact repaired_test_sound_exact. Qed.
+Print Assumptions repaired_branch_test_sound.
+
+(* ------------------------------------------------------------------ (d) process_shifts (over Q) *)
+(* merging rows whose shifts agree after rounding to 10 decimals preserves sum c g(s) taken at the rounded
+   shifts, for every function g and every rule *)
+Theorem merge_preserves_sum_rounded : forall (g : Q -> Q) (r : qrule),
+  qsum g (merge_always r) == qsum g (rounded r).
+Proof. exact merge_always_sum. Qed.
+Print Assumptions merge_preserves_sum_rounded.
+
+(* merging equal shifts (shifts on the 1e-10 grid) preserves sum c g(s) for every g and every rule *)
+Theorem merge_preserves_sum_on_grid : forall (g : Q -> Q), Proper (Qeq ==> Qeq) g ->
+  forall r : qrule, on_grid r -> qsum g (merge r) == qsum g r.
+Proof. exact merge_preserves_sum. Qed.
+Print Assumptions merge_preserves_sum_on_grid.
+
+(* dropping zero coefficients, merging and the final lexsort together *)
+Theorem process_core_preserves_sum_on_grid : forall (g : Q -> Q), Proper (Qeq ==> Qeq) g ->
+  forall r : qrule, on_grid r -> qsum g (process_core r) == qsum g r.
+Proof. exact process_core_preserves_sum. Qed.
+Print Assumptions process_core_preserves_sum_on_grid.
+
+Theorem sort_is_permutation : forall r : qrule, Permutation.Permutation (sort_rule r) r.
+Proof. exact sort_rule_perm. Qed.
+Print Assumptions sort_is_permutation.
+
+(* ------------------------------------------------------------------ non-vacuity *)
+Open Scope R_scope.
+(* the hypotheses of rule_exact_on_trig_polynomials are met by generate_shift_rule((1,)) on a0 + a cos x + b sin x *)
+Example hyps_satisfiable : forall a0 a b,
+  a0 * mom0 (two_term 1) = 0 /\
+  Forall (fun t => mom_cos (two_term 1) (tw t) = 0 /\ mom_sin (two_term 1) (tw t) = tw t) [(1, a, b)].
+Proof.
+  intros a0 a b. split.
+  - destruct (antisym_moments [(1 / 2, PI / (2 * 1))] 0) as [H _]. unfold two_term. rewrite H. apply Rmult_0_r.
+  - constructor; [| constructor]. exact (two_term_moments 1 R1_neq_R0).
+Qed.
+
+Open Scope Q_scope.
+Example process_example :
+  eq_qrule (process_shifts [(1 # 2, 1 # 2); (1 # 4, 1 # 2); (-1 # 1, -1 # 2)]) [(3 # 4, 1 # 2); (-1 # 1, -1 # 2)] = true
+  /\ generate_branch [1 # 1; 2 # 1; 3 # 1] None = BEqui /\ generate_branch [1 # 1; 2 # 1; 4 # 1] None = BSolve
+  /\ generate_branch [1 # 1; 1 # 1] None = BErr.
+Proof. vm_compute. repeat split; reflexivity. Qed.
